@@ -458,6 +458,155 @@ def c07_string(case):
     finally:
         reset_table()
 
+
+# ---------------------------------------------------------------------------
+# C17 attribution
+
+_BR = re.compile(r"^\[[=#]?Branch([123])\]$")
+_RG = re.compile(r"^\[(?:[=#]|[-/\\][-/\\])?Ring([123])\]$")
+
+
+def selfies_roles(symbols):
+    """role of every symbol of an encoder-produced SELFIES fragment list: 'atom' / 'branch' / 'ring' / 'index' / 'dot'"""
+    roles = []
+    skip = 0
+    for s in symbols:
+        if s == ".":
+            roles.append("dot")
+            skip = 0
+            continue
+        if skip:
+            roles.append("index")
+            skip -= 1
+            continue
+        m = _BR.match(s)
+        if m:
+            roles.append("branch")
+            skip = int(m.group(1))
+            continue
+        m = _RG.match(s)
+        if m:
+            roles.append("ring")
+            skip = int(m.group(1))
+            continue
+        roles.append("atom")
+    return roles
+
+
+def _atom_text_of_symbol(sym):
+    """SMILES atom text the decoder writes for an atom symbol (independent: strip bond prefix, keep brackets unless organic)"""
+    body = sym[1:-1]
+    if body[:1] in "=#/\\":
+        body = body[1:]
+    if body in ("B", "C", "N", "O", "S", "P", "F", "Cl", "Br", "I"):
+        return body
+    return "[" + body + "]"
+
+
+def c17_decoder(case):
+    if not set_table(case.get("table")):
+        return ok("table rejected")
+    try:
+        x = case["selfies"]
+        r0 = _dec(x)
+        try:
+            with warnings.catch_warnings():
+                warnings.simplefilter("ignore")
+                r1 = sf.decoder(x, attribute=True)
+        except sf.DecoderError:
+            if r0[0] != "DecoderError":
+                return bad("C17:decoder-changes-result", "decoder(%r) -> %s but raises DecoderError with attribute=True" % (x, r0))
+            return ok()
+        if r0 != ("ok", r1[0]):
+            return bad("C17:decoder-changes-result", "decoder(%r) -> %s but attribute=True gives %r" % (x, r0, r1[0]))
+        out, amap = r1
+        eff = [t for t in _tok(x) if t not in ("[nop]", ".")]
+        mol = oread.read_smiles(out)
+        atom_ends = {a.end - 1: a for a in mol.atoms}
+        seen_atoms = set()
+        for e in amap:
+            lo = e.index + 1 - len(e.token)
+            if lo < 0 or out[lo:e.index + 1] != e.token:
+                return bad("C17:decoder-output-index", "decoder(%r, attribute=True): entry token %r reported at index %d, but output %r has %r there"
+                           % (x, e.token, e.index, out, out[max(lo, 0):e.index + 1]))
+            for a in (e.attribution or []):
+                if not (0 <= a.index < len(eff)) or eff[a.index] != a.token:
+                    return bad("C17:decoder-input-index", "decoder(%r, attribute=True): contributing token %r reported at position %d, input has %r there"
+                               % (x, a.token, a.index, eff[a.index] if 0 <= a.index < len(eff) else None))
+            if e.index in atom_ends and atom_ends[e.index].text == e.token:
+                seen_atoms.add(e.index)
+                att = e.attribution or []
+                if not att:
+                    return bad("C17:decoder-atom-unattributed", "decoder(%r): output atom %r at %d has no attribution" % (x, e.token, e.index))
+                creator = att[-1]
+                if _atom_text_of_symbol(creator.token) != e.token:
+                    return bad("C17:decoder-atom-creator", "decoder(%r): output atom %r at %d attributed to %r" % (x, e.token, e.index, creator.token))
+                if any("Branch" not in a.token for a in att[:-1]):
+                    return bad("C17:decoder-atom-creator", "decoder(%r): output atom %r at %d: enclosing entries %r are not branch symbols"
+                               % (x, e.token, e.index, [a.token for a in att[:-1]]))
+                idxs = [a.index for a in att]
+                if idxs != sorted(idxs) or len(set(idxs)) != len(idxs):
+                    return bad("C17:decoder-atom-creator", "decoder(%r): attribution positions %r of atom at %d not increasing" % (x, idxs, e.index))
+        if case.get("creators") is not None:
+            # creators: list (per output atom, in order) of (creator position, [enclosing branch positions]) from O-DERIV
+            ents = sorted((e for e in amap if e.index in atom_ends), key=lambda e: e.index)
+            for e, (cpos, bpos) in zip(ents, case["creators"]):
+                got = [a.index for a in (e.attribution or [])]
+                if got != list(bpos) + [cpos]:
+                    return bad("C17:decoder-atom-creator", "decoder(%r): atom at %d attributed to positions %r, derivation gives %r" % (x, e.index, got, list(bpos) + [cpos]))
+        if len(seen_atoms) != len(mol.atoms):
+            return bad("C17:decoder-atom-unattributed", "decoder(%r, attribute=True): %d output atoms, %d attributed" % (x, len(mol.atoms), len(seen_atoms)))
+        return ok()
+    finally:
+        reset_table()
+
+
+def c17_encoder(case):
+    reset_table()
+    s = case["smiles"]
+    strict = bool(case.get("strict", True))
+    try:
+        r0 = ("ok", sf.encoder(s, strict=strict))
+    except sf.EncoderError:
+        r0 = ("EncoderError",)
+    try:
+        r1 = sf.encoder(s, strict=strict, attribute=True)
+    except sf.EncoderError:
+        if r0[0] != "EncoderError":
+            return bad("C17:encoder-changes-result", "encoder(%r) -> %s but raises with attribute=True" % (s, r0))
+        return ok()
+    if r0 != ("ok", r1[0]):
+        return bad("C17:encoder-changes-result", "encoder(%r) -> %s but attribute=True gives %r" % (s, r0, r1[0]))
+    out, amap = r1
+    mol = oread.read_smiles(s)
+    if mol.faults:
+        return ok("input not readable by O-READ: %s" % mol.faults[:1])
+    syms = _tok(out)
+    roles = selfies_roles(syms)
+    nodot = [(t, r) for t, r in zip(syms, roles) if r != "dot"]
+    atom_pos = [i for i, (t, r) in enumerate(nodot) if r == "atom"]
+    if len(atom_pos) != len(mol.atoms):
+        return ok("atom count differs (C03's subject)")
+    toks_nodot = [t for t in mol.tokens if t[3] != "dot"]
+    tokidx = {}
+    for i, t in enumerate(toks_nodot):
+        if t[3] == "atom":
+            tokidx[t[0]] = i
+    # every SELFIES atom symbol (position p, k-th atom) must carry an entry attributing it to the k-th SMILES atom token.
+    # (entries of branch / ring / index symbols are not part of the property's encoder clause and are not judged.)
+    for k, p_ in enumerate(atom_pos):
+        a = mol.atoms[k]
+        want = (tokidx[a.start], a.text)
+        ents = [e for e in amap if e.index == p_ and e.token == nodot[p_][0]]
+        if not ents:
+            return bad("C17:encoder-atom-unattributed", "encoder(%r, attribute=True) = %r: no entry for atom symbol %r at position %d (entries with that token: %r)"
+                       % (s, out, nodot[p_][0], p_, [(e.index, e.token) for e in amap if e.token == nodot[p_][0]][:6]))
+        good = [e for e in ents if [(x.index, x.token) for x in (e.attribution or [])] == [want]]
+        if not good:
+            return bad("C17:encoder-atom-source", "encoder(%r, attribute=True) = %r: atom symbol %r at %d attributed to %r, made from SMILES token %r"
+                       % (s, out, nodot[p_][0], p_, [[(x.index, x.token) for x in (e.attribution or [])] for e in ents], want))
+    return ok()
+
 # ---------------------------------------------------------------------------
 
 KINDS = {
@@ -471,6 +620,8 @@ KINDS = {
     "compat": c18_compat,
     "alphabet": c07_alphabet,
     "robust_string": c07_string,
+    "attr_decoder": c17_decoder,
+    "attr_encoder": c17_encoder,
     "state_fn": lemma_state_fn,
     "ring_step": lemma_ring_step,
 }
